@@ -1,3 +1,176 @@
-import CLModel.Model.Primary
+import CLModel.Proofs.Primary
+import Mathlib.Tactic.Linarith
+/-!
+# C11 — Common attributes bind all sub-proofs to one link secret
+
+Verifier side: the common-attribute pass of `ProofVerifier::verify` (`commonPass`, threaded
+through `verifyLoop`) for any number of sub-proofs and any set of declared attributes.
+Prover side: `get_mtilde` never overwrites the shared blinder, so the responses for a common
+attribute agree across sub-proofs exactly when the attribute values agree.
+-/
 namespace CL.C11
+open CL CL.Pri
+
+variable {G : Type}
+
+/-- what `seen` records: it only ever maps an attribute to the response of a sub-proof -/
+def Agrees (seen : List (String × Int)) (eq : EqProof G) (as : List String) : Prop :=
+  ∀ a ∈ as, ∃ v, lookup a eq.m = some v ∧ lookup a seen = some v
+
+theorem lookup_cons_ne {α : Type} (a b : String) (v : α) (l : List (String × α)) (h : a ≠ b) :
+    lookup a ((b, v) :: l) = lookup a l := by
+  have : (a == b) = false := by simpa using h
+  simp [lookup, this]
+
+theorem lookup_cons_self {α : Type} (a : String) (v : α) (l : List (String × α)) :
+    lookup a ((a, v) :: l) = some v := by simp [lookup]
+
+/-- one pass over the declared attributes: on success every attribute of the pass is a key of
+this sub-proof's `m̂` map and its value equals the recorded one; earlier records are kept. -/
+theorem commonPass_ok (common : List String) (eq : EqProof G) :
+    ∀ (as : List String) (seen seen' : List (String × Int)),
+      commonPass common eq seen as = .ok seen' →
+      Agrees seen' eq as ∧ (∀ a v, lookup a seen = some v → lookup a seen' = some v) := by
+  intro as
+  induction as with
+  | nil =>
+    intro seen seen' h
+    simp only [commonPass, Outcome.ok.injEq] at h
+    subst h
+    exact ⟨fun a ha => by simp at ha, fun _ _ h => h⟩
+  | cons a as ih =>
+    intro seen seen' h
+    simp only [commonPass] at h
+    cases hm : lookup a eq.m with
+    | none => simp [hm] at h
+    | some mhat =>
+      simp only [hm] at h
+      cases hs : lookup a seen with
+      | some v =>
+        simp only [hs] at h
+        by_cases hv : v == mhat
+        · simp only [hv, if_true] at h
+          obtain ⟨h1, h2⟩ := ih seen seen' h
+          have hveq : v = mhat := by simpa using hv
+          refine ⟨?_, h2⟩
+          intro b hb
+          simp only [List.mem_cons] at hb
+          rcases hb with rfl | hb
+          · exact ⟨mhat, hm, by rw [← hveq]; exact h2 b v hs⟩
+          · exact h1 b hb
+        · simp [hv] at h
+      | none =>
+        simp only [hs] at h
+        obtain ⟨h1, h2⟩ := ih ((a, mhat) :: seen) seen' h
+        refine ⟨?_, ?_⟩
+        · intro b hb
+          simp only [List.mem_cons] at hb
+          rcases hb with rfl | hb
+          · exact ⟨mhat, hm, h2 b mhat (lookup_cons_self b mhat seen)⟩
+          · exact h1 b hb
+        · intro b v hb
+          by_cases hba : b = a
+          · subst hba; rw [hs] at hb; cases hb
+          · exact h2 b v (by rw [lookup_cons_ne b a mhat seen hba]; exact hb)
+
+/-- **a sub-proof lacking a declared common attribute is rejected** -/
+theorem missing_common_rejected (common : List String) (eq : EqProof G) :
+    ∀ (as : List String) (seen : List (String × Int)),
+      (∃ a ∈ as, lookup a eq.m = none) → ∀ seen', commonPass common eq seen as ≠ .ok seen' := by
+  intro as seen ⟨a, ha, hn⟩ seen' h
+  obtain ⟨h1, _⟩ := commonPass_ok common eq as seen seen' h
+  obtain ⟨v, hv, _⟩ := h1 a ha
+  rw [hn] at hv; cases hv
+
+/-- **common attributes are enforced**: if the per-sub-proof loop of `verify` succeeds from a
+state `seen`, then every sub-proof contains every declared common attribute, with the same
+response in all of them (and equal to the one recorded in `seen`, if any). Induction over the
+list of sub-proofs — any number of credentials. -/
+theorem common_enforced (m : OvfMode) (common : List String) (c : Int) :
+    ∀ (sps : List (SubProof G)) (vcs : List (VerCred G)) (seen : List (String × Int))
+      (items : List Item), verifyLoop m common c sps vcs seen = .ok items →
+      ∃ final : List (String × Int),
+        (∀ a v, lookup a seen = some v → lookup a final = some v) ∧
+        ∀ sp ∈ sps, ∀ a ∈ common, ∃ v, lookup a sp.eq.m = some v ∧ lookup a final = some v := by
+  intro sps
+  induction sps with
+  | nil => intro vcs seen items _; exact ⟨seen, fun _ _ h => h, fun sp hsp => by simp at hsp⟩
+  | cons sp sps ih =>
+    intro vcs seen items h
+    cases vcs with
+    | nil => simp [verifyLoop] at h
+    | cons vc vcs =>
+      simp only [verifyLoop] at h
+      split at h
+      · simp at h
+      · cases hnr : (if (sp.hasNonRevoc && vc.hasRKey && vc.hasRegistry && vc.hasRegKey) = true
+            then sp.nrTaus else Outcome.ok []) with
+        | ok nrItems =>
+          rw [hnr] at h
+          simp only [Outcome.bind_ok] at h
+          cases hcp : commonPass common sp.eq seen common with
+          | ok seen' =>
+            rw [hcp] at h
+            simp only [Outcome.bind_ok] at h
+            cases hvp : verifyPrimaryProof vc.o m vc.pk sp.eq sp.ne c
+                (unrevealedOf vc.schema vc.nonSchema vc.req.revealed) with
+            | ok ts =>
+              rw [hvp] at h
+              simp only [Outcome.bind_ok] at h
+              cases hrest : verifyLoop m common c sps vcs seen' with
+              | ok rest =>
+                obtain ⟨final, hf1, hf2⟩ := ih vcs seen' rest hrest
+                obtain ⟨hag, hkeep⟩ := commonPass_ok common sp.eq common seen seen' hcp
+                refine ⟨final, fun a v hv => hf1 a v (hkeep a v hv), ?_⟩
+                intro sp' hsp' a ha
+                simp only [List.mem_cons] at hsp'
+                rcases hsp' with rfl | hsp'
+                · obtain ⟨v, hv1, hv2⟩ := hag a ha
+                  exact ⟨v, hv1, hf1 a v hv2⟩
+                · exact hf2 sp' hsp' a ha
+              | err => rw [hrest] at h; simp at h
+              | panic => rw [hrest] at h; simp at h
+            | err => rw [hvp] at h; simp at h
+            | panic => rw [hvp] at h; simp at h
+          | err => rw [hcp] at h; simp at h
+          | panic => rw [hcp] at h; simp at h
+        | err => rw [hnr] at h; simp at h
+        | panic => rw [hnr] at h; simp at h
+
+/-- corollary: in an accepted multi-credential proof all sub-proofs carry the same response
+for every declared common attribute -/
+theorem common_responses_equal (m : OvfMode) (common : List String) (c : Int)
+    (sps : List (SubProof G)) (vcs : List (VerCred G)) (items : List Item)
+    (h : verifyLoop m common c sps vcs [] = .ok items) :
+    ∀ sp₁ ∈ sps, ∀ sp₂ ∈ sps, ∀ a ∈ common, lookup a sp₁.eq.m = lookup a sp₂.eq.m ∧
+      (lookup a sp₁.eq.m).isSome := by
+  obtain ⟨final, _, hf⟩ := common_enforced m common c sps vcs [] items h
+  intro sp₁ h₁ sp₂ h₂ a ha
+  obtain ⟨v₁, e₁, f₁⟩ := hf sp₁ h₁ a ha
+  obtain ⟨v₂, e₂, f₂⟩ := hf sp₂ h₂ a ha
+  rw [f₁] at f₂; cases f₂
+  exact ⟨by rw [e₁, e₂], by rw [e₁]; rfl⟩
+
+/-- **the honest prover keeps the shared blinder**: `get_mtilde` only fills missing entries,
+so the blinder seeded for a common attribute is the one used in every sub-proof … -/
+theorem common_seed_preserved (fresh : String → ℤ) (un : List String)
+    (common : List (String × ℤ)) (a : String) (mt : ℤ) (h : lookup a common = some mt) :
+    lookup a (getMtilde fresh un common) = some mt :=
+  getMtilde_preserves fresh un common a mt h
+
+/-- … hence the responses `m̂ = c·m + m̃` of two credentials for a common attribute agree iff
+the attribute values agree (for a non-zero challenge): equal values are accepted by the
+common-attribute pass, different values are rejected by it. -/
+theorem responses_equal_iff_values_equal (c mt v₁ v₂ : ℤ) (hc : c ≠ 0) :
+    c * v₁ + mt = c * v₂ + mt ↔ v₁ = v₂ := by
+  constructor
+  · intro h
+    have : c * v₁ = c * v₂ := by omega
+    exact mul_left_cancel₀ hc this
+  · intro h; rw [h]
+
+/-! non-vacuity: a two-entry `seen` and a matching sub-proof map -/
+example : commonPass (G := ℤ) ["master_secret"] ⟨[], 0, 0, 0, [("master_secret", 42)], 0⟩ []
+    ["master_secret"] = .ok [("master_secret", 42)] := by decide
+
 end CL.C11
